@@ -215,7 +215,12 @@ func VerifyProof(token string, cfg *ProofConfig, cache *nonceCache) (map[string]
 	if err != nil {
 		return nil, &ProofError{"malformed", "ts not an integer"}
 	}
-	age := nowFn().Unix() - ts
+	// One clock reading decides both the timestamp window and the replay
+	// cache: with two readings a replay whose window check lands in the last
+	// acceptable second and whose cache lookup lands just after the entry
+	// expired (at the next second boundary) was admitted a second time.
+	now := nowFn()
+	age := now.Unix() - ts
 	skew := int64(cfg.SkewSeconds)
 	if age > skew {
 		return nil, &ProofError{"expired", fmt.Sprintf("age=%ds", age)}
@@ -238,7 +243,7 @@ func VerifyProof(token string, cfg *ProofConfig, cache *nonceCache) (map[string]
 		return nil, &ProofError{"bad_mac", "signature mismatch"}
 	}
 
-	if cache != nil && !cache.checkAndAdd(nonce) {
+	if cache != nil && !cache.checkAndAddAt(nonce, now) {
 		return nil, &ProofError{"replayed", "nonce already seen"}
 	}
 
@@ -300,7 +305,12 @@ func proofReplayTTL(skewSeconds int) time.Duration {
 // Test and insert are one locked operation: a separate contains-then-add would
 // let two concurrent replays both observe "not seen" and both be accepted.
 func (c *nonceCache) checkAndAdd(nonce string) bool {
-	now := c.now()
+	return c.checkAndAddAt(nonce, c.now())
+}
+
+// checkAndAddAt is checkAndAdd at the caller's clock reading, so the gate can
+// judge the timestamp window and the replay cache at one instant.
+func (c *nonceCache) checkAndAddAt(nonce string, now time.Time) bool {
 	c.mu.Lock()
 	defer c.mu.Unlock()
 
